@@ -20,3 +20,14 @@ package data
 //@ may_panic
 //@ func data.consumeUnixFSData$2
 //@ may_panic
+
+// Bounded work: every iteration of a decoder loop consumes at least one byte.
+//@ func data.consumeUnixFSData
+//@ loop 0 decreases len(remaining)
+//@ func data.consumeUnixTime
+//@ loop 0 decreases len(remaining)
+//@ func data.consumeUnixFSMetadata
+//@ loop 0 decreases len(remaining)
+//@ func data.consumeBlockSizes
+//@ loop 0 invariant 0 <= i
+//@ loop 0 decreases int(count) - i
